@@ -69,9 +69,10 @@ def effect_blocks(F, f, writes_only):
             return memo[g.path]
         memo[g.path] = False
         r = False
+        from rules import heed_cursor_call
         for c in g.calls():
             h = heed_db_call(c)
-            if h and (h[1] or not writes_only):
+            if (h and (h[1] or not writes_only)) or heed_cursor_call(c):
                 r = True
                 break
             if depth < 6:
@@ -84,10 +85,15 @@ def effect_blocks(F, f, writes_only):
         memo[g.path] = r
         return r
     out = []
+    from rules import heed_cursor_call
     for c in f.calls():
         h = heed_db_call(c)
         if h and (h[1] or not writes_only):
             out.append((c.bb, c, h[0]))
+            continue
+        hc = heed_cursor_call(c)
+        if hc:
+            out.append((c.bb, c, hc))
             continue
         for g in F.resolve_call(c):
             if has_effect(g):
